@@ -17,6 +17,7 @@ type ReplayFn = fn(&Value, &mut Tally);
 
 fn registry() -> Vec<(&'static str, RunFn, ReplayFn)> {
     vec![
+        ("C01", props::c01::run, props::c01::replay),
         ("C02", props::c02::run, props::c02::replay),
         ("C03", props::c03::run, props::c03::replay),
         ("C04", props::c04::run, props::c04::replay),
